@@ -5,6 +5,7 @@ import Kaira.VerbsMod
 import Kaira.VerbsFec
 import Kaira.VerbsChan
 import Kaira.VerbsPolar
+import Kaira.VerbsSoft
 open Kaira
 
 structure DState where
@@ -44,6 +45,7 @@ def dispatch (st : DState) (line : String) : DState × String :=
         fun _ => Verbs.canalog toks,
         fun _ => Verbs.cconstraint toks,
         fun _ => Verbs.cpolar st.rank toks,
+        fun _ => Verbs.csoft toks,
         fun _ => natVerb verb args,
         fun _ => Verbs.c16 toks,
         fun _ => Verbs.c17 toks,
